@@ -2098,6 +2098,13 @@ class DiskObjectStore(PackBasedObjectStore):
             self._pack_access_order.remove(basename)
         except ValueError:
             pass
+        # A multi-pack-index naming the removed pack would keep claiming its
+        # objects; the file is optional, so drop it before the pack goes.
+        if self._midx is not None:
+            self._midx.close()
+            self._midx = None
+        with suppress(FileNotFoundError):
+            os.remove(os.path.join(self.pack_dir, "multi-pack-index"))
         # Store paths before closing to avoid re-opening files on Windows
         data_path = pack._data_path
         idx_path = pack._idx_path
